@@ -116,8 +116,9 @@ class DiffParser:
     def make_action(self, line):
         # Remove brackets
         line = line[1:-1]
-        # Split the line on commas (ignoring commas in quoted strings) and
-        # strip extraneous spaces. The first is the action, the rest params.
+        # Split the line on commas (ignoring commas in quoted strings and in
+        # the namespace of a {uri}name) and strip extraneous spaces. The
+        # first is the action, the rest params.
         parts = [x.strip() for x in self._split(line)]
         action = parts[0]
         params = parts[1:]
@@ -127,13 +128,19 @@ class DiffParser:
 
     def _split(self, line):
         # The values are JSON encoded, so commas inside JSON strings do
-        # not separate parameters.
+        # not separate parameters. Neither do commas in the namespace URI
+        # of a tag or attribute name in Clark notation, {uri}name.
         parts = []
         part = ""
+        in_clark = False
         in_string = False
         escaped = False
         for char in line:
-            if in_string:
+            if in_clark:
+                part += char
+                if char == "}":
+                    in_clark = False
+            elif in_string:
                 part += char
                 if escaped:
                     escaped = False
@@ -148,6 +155,8 @@ class DiffParser:
                 part += char
                 if char == '"':
                     in_string = True
+                elif char == "{" and not part[:-1].strip():
+                    in_clark = True
         parts.append(part)
         return parts
 
@@ -184,8 +193,9 @@ class DiffParser:
     def _handle_insert_comment(self, target, position, text):
         return actions.InsertComment(target, int(position), loads(text))
 
-    def _handle_insert_namespace(self, prefix, uri):
-        return actions.InsertNamespace(prefix, uri)
+    def _handle_insert_namespace(self, prefix, uri, *more):
+        # The URI is written as it is and may contain commas
+        return actions.InsertNamespace(prefix, ",".join((uri,) + more))
 
     def _handle_delete_namespace(self, prefix):
         return actions.DeleteNamespace(prefix)
